@@ -65,6 +65,11 @@ class C01(MsgProp):
         for n in g.numbers:
             for _ in range(per):
                 yield ("ENC " + g.message(r, n, "valid"), "generated", True)
+        # the same kind of values held in containers with a history (lists that were full, cleared and refilled:
+        # stale elements behind the active part); short lists leave the longest stale tails
+        for n in g.numbers:
+            for k in (0, 1, 2, 3, None):
+                yield ("ENCD " + g.message(r, n, "valid", lens=k), "containers-with-history", True)
         # every listing shape of the bias lists, not a random pick of them (descending / scattered satellites,
         # one satellite, all satellites, capacity)
         for n, fid in ((1059, "df_msg1059_biases"), (1065, "df_msg1065_biases")):
@@ -94,6 +99,12 @@ class C01(MsgProp):
                         for _, x in mf["fields"]:
                             toks += g.msm(r, f, "valid", invalid=inv) if x == f["id"] else g.frag(r, x, "valid")
                         yield ("ENC %d %s" % (num, " ".join(toks)), "msm-invalid-class", True)
+        # message values extended in place (public mutators) between two encodes: text, descriptor, list
+        for kind, cap in (("text", 127), ("desc", 31), ("list", 31)):
+            for total in (1, 2, 12, cap - 1, cap, cap + 1):
+                for k in sorted({0, 1, total // 2, max(0, total - 1)}):
+                    cps = [r.choice([0x61, 0xE9, 0x65E5, 0x1F600, 0x41, 0x7A]) for _ in range(total)]
+                    yield ("GROW %s %d %s" % (kind, k, " ".join(map(str, cps))), "value-grown-in-place", True)
         # frames from a used builder: after builds that failed early / late / were refused, and after long frames
         # (C12 says the bytes are those of a fresh builder; here the frame itself must decode and re-encode)
         self.hist_ops = []
@@ -953,6 +964,10 @@ class C17(MsgProp):
                     txt = fill * k + chr(cp)
                     if len(txt) <= 127 and len(txt.encode()) <= 255:
                         yield ("ENC 1029 i%d i%d i%d b%s" % (r.randrange(4096), r.randrange(65536), r.randrange(86400), hx(txt.encode())), "text-boundary", True)
+        for total in (5, 100, 126, 127, 128, 130):
+            for k in (0, 1, total - 2, total - 1):
+                cps = [r.choice([0x61, 0xE9, 0x65E5, 0x1F600]) if total < 100 else 0x61 for _ in range(total)]
+                yield ("GROW text %d %s" % (k, " ".join(map(str, cps))), "text-grown-in-place", True)
         for n in (1007, 1008, 1021, 1022, 1023, 1024, 1025, 1026, 1027, 1029, 1033, 1300, 1301, 1302):
             if n not in g.numbers:
                 continue
